@@ -80,11 +80,27 @@ def compare_one(header, events, obs, states, got, base, ev_idx, mm, mi):
             if gs != [states[j]]:
                 out["dis"] = {"at": j, "event": e, "impl": [states[j]], "model": gs, "kind": "state"}
                 break
-    OK = (["ok"], ["skip"])  # skip: the flat monitors do not apply to a trace in which a callback ran
+    # `okp n`: the flat monitors judged only the flat prefix (n steps) of the trace: they do not apply beyond the
+    # first callback / stubborn / synchronous-endpoint event (the stream monitors r06/r10 judge every trace)
+    def good(x):
+        return x == ["ok"] or (len(x) == 1 and x[0].startswith("okp "))
+
+    class _OK(object):
+        def __contains__(self, x):
+            return good(x)
+
+    OK = _OK()
     mods = got[base + mm: base + mm + 5]
     if out["dis"] is None and any(x not in OK for x in mods):
         out["monmodel"] = dict(zip(["c06", "c10", "c06-routing", "r06", "r10"], mods))
     c6, c10, c6r, r6, r10 = got[base + mi: base + mi + 5]
+    # how much of the implementation's trace the flat monitors judged
+    if c10 == ["ok"] or c6 == ["ok"]:
+        out["flatcov"] = (len(events), len(events))
+    elif len(c10) == 1 and c10[0].startswith("okp "):
+        out["flatcov"] = (int(c10[0].split()[1]), len(events))
+    else:
+        out["flatcov"] = None
     if ["bad-op"] in (c6, c10, c6r, r6, r10):
         # an observation of the implementation is outside the vocabulary of the model: not a verdict of the
         # monitor but a difference between model and implementation
@@ -295,6 +311,17 @@ def run_shard(seed, n, profiles, maxlen=None, prefix=None, mons=("c06", "c10"), 
         for m in mons:
             if r[m] is not None:
                 summ["mon"].append({"mon": m, "header": header, "events": events, "obs": obs, "verdict": r[m]})
+        # accounting: what the FLAT monitors judged of this implementation trace (the stream monitors r06/r10
+        # judge all of it)
+        cov = r.get("flatcov")
+        if cov is not None:
+            hist["cov traces"] = hist.get("cov traces", 0) + 1
+            hist["cov flat-monitor judged whole trace" if cov[0] == cov[1] else "cov flat-monitor judged prefix only"] = \
+                hist.get("cov flat-monitor judged whole trace" if cov[0] == cov[1] else "cov flat-monitor judged prefix only", 0) + 1
+            hist["cov steps judged by flat monitors"] = hist.get("cov steps judged by flat monitors", 0) + cov[0]
+            hist["cov steps total"] = hist.get("cov steps total", 0) + cov[1]
+            if cov[0] == 0 and cov[1] > 0:
+                hist["cov flat-monitor judged nothing"] = hist.get("cov flat-monitor judged nothing", 0) + 1
     return summ
 
 
